@@ -8,7 +8,7 @@ Verdicts: TRANSLATOR-FAILED-LOUDLY (a ShapeError names the construct; the tie th
 import os, subprocess, sys, shutil
 
 V = os.path.dirname(os.path.dirname(os.path.abspath(__file__)))
-SCR = f"/var/tmp/tr-repo.{os.getpid()}"
+SCR = os.path.join(os.environ.get("TIE_SELFTEST_SCRATCH", "/var/tmp"), f"tr-repo.{os.getpid()}")
 
 
 def sh(cmd, **kw):
